@@ -487,3 +487,82 @@ pub fn replay(w: &str) -> Vec<Violation> {
     }
     out
 }
+
+/// Aging of a LARGE table: increments (one fixed pseudo-random hash sequence) up to and
+/// past the first aging steps of a sketch whose table has more slots than any chunked
+/// sweep would cover at once; the whole table is compared with the nibble-array
+/// reference (same increments, halving exactly when the sample is full) right after each
+/// aging step and at the end. One fixed history per capacity, not a search.
+pub fn aging_big(cap: u32) -> (String, Vec<Violation>) {
+    let t0 = Instant::now();
+    let w = format!("sketchbig|{cap}");
+    let mut viols: Vec<Violation> = Vec::new();
+    let r = catch_unwind(AssertUnwindSafe(|| {
+        let mut s = SketchFacade::new();
+        s.ensure_capacity(cap);
+        let snap0 = s.snapshot();
+        let mut rf = RefTable::from_snap(snap0.table_len, &[]);
+        let sample = snap0.sample_size as u64;
+        let mut size = 0u64;
+        let mut gen = HashGen(0x1234_5678_9abc_def1);
+        let total = sample * 2 + sample / 2;
+        let mut agings = 0u32;
+        let mut problems: Vec<String> = Vec::new();
+        let mut compare = |s: &SketchFacade, rf: &RefTable, size: u64, when: String, problems: &mut Vec<String>| {
+            let snap = s.snapshot();
+            let got = RefTable::from_snap(snap.table_len, &snap.table);
+            let diff = got.nib.iter().zip(rf.nib.iter()).filter(|(a, b)| a != b).count();
+            if diff != 0 {
+                let too_high = got.nib.iter().zip(rf.nib.iter()).filter(|(a, b)| a > b).count();
+                problems.push(format!("{when}: {diff} of {} counters differ from the reference ({too_high} of them higher, i.e. not halved)", got.nib.len()));
+            }
+            if snap.size as u64 != size {
+                problems.push(format!("{when}: size {} where the reference has {size}", snap.size));
+            }
+        };
+        // a hot set is incremented often enough to saturate, the rest spreads over the table
+        for i in 0..total {
+            let h = if i % 3 == 0 { (i % 64).wrapping_mul(0x9E37_79B9_7F4A_7C15) } else { gen.next() };
+            let f = foot(&s, h);
+            s.increment(h);
+            if rf.inc(&f) {
+                size += 1;
+                if size >= sample {
+                    let odd = rf.nib.iter().filter(|c| **c & 1 == 1).count() as u64;
+                    rf.halve();
+                    size = (size - (odd >> 2)) >> 1;
+                    agings += 1;
+                    if problems.len() < 3 {
+                        compare(&s, &rf, size, format!("right after aging step {agings} (increment {})", i + 1), &mut problems);
+                    }
+                }
+            }
+        }
+        if problems.is_empty() {
+            compare(&s, &rf, size, format!("after {total} increments"), &mut problems);
+        }
+        (snap0.table_len, sample, total, agings, problems)
+    }));
+    let (table_len, sample, total, agings) = match r {
+        Ok((tl, sa, to, ag, problems)) => {
+            for p in problems.into_iter().take(1) {
+                viols.push(Violation { prop: "C14", sig: "sketch:big-table-aging".into(), detail: format!("capacity {cap}, table of {tl} words: {p}"), witness: w.clone() });
+            }
+            (tl, sa, to, ag)
+        }
+        Err(p) => {
+            viols.push(Violation { prop: "C08", sig: "sketch:panic:big-table".into(), detail: format!("capacity {cap}: {}", panic_msg(&p)), witness: w.clone() });
+            (0, 0, 0, 0)
+        }
+    };
+    let json = format!(
+        "{{\"engine\":\"sketchbig\",\"spec\":{},\"states\":{},\"transitions\":{total},\"aging_steps_seen\":{agings},\"depth_done\":{total},\"capped\":false,\"outcomes\":1,\"viol_total\":{},\"violations\":{},\"samples\":{},\"table_len\":{table_len},\"sample_size\":{sample},\"wall_s\":{:.3}}}",
+        jstr(&format!("big-table aging, cap={cap}")),
+        agings.max(1),
+        viols.len(),
+        jlist(&viols.iter().map(|v| v.to_json()).collect::<Vec<_>>()),
+        jlist(&[jstr(&w)]),
+        t0.elapsed().as_secs_f64()
+    );
+    (json, viols)
+}
